@@ -9,6 +9,10 @@ registries.match/prematch/get_handlers/_deduplicated and the real process_resour
 compared with the Lean model; the oracle is a separate Python reading of docs/filters.rst.
 Sub-registries (`@kopf.subhandler`, `kopf.register`, `kopf.execute(fns=...)`) are built by kopf itself
 inside a running parent handler and judged the same way (finding C15-F8, /repo 17e5c42).
+The variant of processing.py under test is a value (`Repairs`; the head is /repo ad4ec08: blind again to
+the objects it does not match -- 423b86f's purge "by name" is reverted, finding C15-F9); two real operators
+on one simulated cluster are its regression. Stacked registrations (one function, one id, several
+reasons) are run in a closed loop on the real process_resource_event: calls per cause (/repo f7d6401).
 """
 from __future__ import annotations
 
@@ -38,17 +42,23 @@ LEVEL_TEXT = (
     "subhandler_deletion_regression (finding C15-F8: the gate of /repo 345a874 rejected the sub-handlers of a deletion "
     "handler); subhandler_matching_invoked_fresh; invoked_sound, unmatched_never_invoked, "
     "matching_due_invoked/matching_invoked_fresh (changing registry, both directions of 'exactly' under the all-at-once "
-    "lifecycle, composed with C02); stealth_exact (what a cycle does to an object nothing matches, over the model's Effect "
-    "enumeration: since /repo 423b86f incl. the purge of the leftover progress records in the blind branch; a carried "
-    "transformation counts as a write only while it still has something to change; stealth_exact_at: the same for EVERY "
-    "variant of the code with the blind purge, i.e. with 608a57d's head block or with its rework 02af7ce), purgeIds_iff "
-    "(which records: exactly those PRESENT on the object that belong to a handler of the resource or are named as "
-    "sub-handler records by such a present record -- never an addition, never a record nobody of this registry names), "
-    "carried_fulfilled_sends_nothing (unguarded: a fulfilled carried transformation is no write to an unmatched object), "
-    "deadline_writes_nothing (30557a0/02af7ce as far as this property sees them: a deadline that is over changes nothing in "
-    "the effects), regression theorems carried_fulfilled_regression (C03-N2/C06-F9 seen from here: the matching handler was "
-    "never invoked; 608a57d: invoked at once; 02af7ce: the cycle comes back by a touch) and stealth_leftover_regression "
-    "(C03-F2 seen from here: the framework's annotations stayed on an object nothing matches). UNDER A NAMED GUARD (= open finding, each with a *_witness replayed from the corpus): "
+    "lifecycle, composed with C02); THE STEALTH CLAUSE FOR THE CODE AS IT IS (/repo ad4ec08 = `Repairs.head`: 423b86f's "
+    "purge of leftover progress records in the blind branch is reverted -- the operator is blind again to the objects it "
+    "does not match), every theorem for EVERY variant of the code without the blind purge: stealth_exact_blind / "
+    "stealth_exact (NO guard: exactly what a cycle does to an object nothing matches, over the model's Effect enumeration: "
+    "the re-sent carried transformation, the removal of the own finalizer, the touch -- nothing else, no purge term), "
+    "blind_never_purges (UNGUARDED, any registry/cause/object, matched or not: the cycle itself patches no progress record "
+    "away), stealth_records_ignored (UNGUARDED: the progress records lying on the object are not even looked at outside "
+    "the handling -- one's own, a sub-handler's, another deployment's: all the same), stealth_exact_at (every variant, "
+    "with or without the purge), carried_fulfilled_sends_nothing (unguarded, every variant: a fulfilled carried "
+    "transformation is no write to an unmatched object), deadline_writes_nothing (30557a0/02af7ce as far as this property "
+    "sees them), purgeIds_iff (what the purge of 423b86f took away: regression material). REGRESSION theorems: "
+    "stealth_purge_by_name_witness (finding C15-F9, introduced by 423b86f, FIXED by ad4ec08: in the variants with the purge "
+    "an operator that never matched the object patches the record `h` away, whoever wrote it; the code as it is does nothing), "
+    "stealth_leftover_regression (C03-F2 seen from here, OPEN AGAIN by decision: before 423b86f nothing, with it the purge of "
+    "exactly the records named, now nothing again -- the leftover stays; a leftover own finalizer is still removed), "
+    "carried_fulfilled_regression (C03-N2/C06-F9 seen from here: before 608a57d the matching handler was never invoked; "
+    "608a57d: invoked at once; 02af7ce and the head: the cycle comes back by a touch). UNDER A NAMED GUARD (= open finding, each with a *_witness replayed from the corpus): "
     "match = documented reading of docs/filters.rst under OldOnlyFree (C15-F1, since /repo bd6cd41 only its residual: a "
     "non-update handler on a changing cause WITH an old state whose old state alone satisfies value=) and TokenFree (per "
     "handler AND cause: only the abuse of the private absent marker as a criterion; the callback gap C15-F2 is repaired by "
@@ -58,18 +68,22 @@ LEVEL_TEXT = (
     "the non-existent old state is not consulted by on.create/on.resume/on.delete handlers), creation_value_current_only "
     "(value= holds iff it holds on the current value, for every documented criterion), create_absent_regression; "
     "Selector.check = docs/resources.rst except the events.k8s.io exclusion (observation, docs-only) -- "
-    "selector_check_iff_partial, resource_criterion_doc_partial; the stealth clause, READ (restated after /repo 423b86f from "
-    "the property text) as 'the framework puts nothing of its own on such an object and calls nothing for it; taking its own "
-    "leftovers OFF -- the own finalizer, progress records of the resource's handlers present on the object -- is what makes "
-    "\"no annotations, no finalizer\" true': under 'no still-effective transformation carried in (C15-F5, by design), no "
-    "lingering daemon (C15-F6)' -- stealth_removals_only_partial (every effect is a removal of an own mark; the old guard 'own "
-    "finalizer absent' is gone), and with 'own finalizer absent' in addition stealth_total_partial (the cycle is exactly the "
-    "purge of purgeIds), stealth_never_handled_partial (no own record on the object: NOTHING is done), stealth_partial "
-    "(all four for every variant with the blind purge). NEW OPEN FINDING C15-F9 (introduced by 423b86f; "
-    "stealth_purge_by_name_witness; two real operators on one simulated cluster): 'own' is decided by handler id and "
-    "prefix, so an operator purges the records another deployment of the same code wrote on an object of ITS share -- the "
-    "two chase each other for ever; the two-operator oracle reads the clause literally (no request at all for an object "
-    "the operator never matched). "
+    "selector_check_iff_partial, resource_criterion_doc_partial; the stealth clause in its STRONGEST form ('left "
+    "untouched' = the cycle does NOTHING: no request, no purge, no call): stealth_total_partial under 'own finalizer "
+    "absent, no still-effective transformation carried in (C15-F5, by design), no lingering daemon (C15-F6)' -- each guard "
+    "necessary: stealth_blocked_witness (the removal of a leftover own finalizer: what the clause wants), "
+    "stealth_carried_witness, stealth_touch_witness; stealth_finalizer_only_partial (without the first guard: the only "
+    "effect is the removal of the own finalizer that IS on the object), stealth_removals_only_partial (every variant: "
+    "removals only), stealth_partial (weaker hypotheses -- on.event handlers and finalizer-free daemons may match: no "
+    "framework write at all). The two-operator oracle reads the clause literally (no request at all for an object the "
+    "operator never matched; finding C15-F9 is its regression: corpus/C15/F9.json must pass). "
+    "ORACLE ONLY (closed loop on the real process_resource_event, no model): 'one function registered twice under the "
+    "same id is invoked once' PER CAUSE for stacked decorators (@on.update + @on.delete, @on.create + @on.resume, ... on "
+    "one function, one id): exactly one call for every cause the function is registered for, none for the others, never two "
+    "in one cycle, also when a deletion supersedes an open handling (/repo f7d6401, C03-N3 seen from here: the namesake's "
+    "finished record is not inherited any more; reverting f7d6401 is caught by corpus/C15/s07) -- except OPEN FINDING C15-F10 "
+    "(the residual f7d6401 names itself: the resuming registration first, restart in the middle of a handling, then "
+    "deletion: the deletion handler is never called). "
     "TIE/ORACLE ONLY: invoked = selected for on.event/daemon/timer/index handlers; `when=` and callbacks' kwargs (opaque "
     "booleans); Selector notation parsing; _deduplicated's loop. 'Matched by no handler' is read as the code's prematch "
     "(object-level criteria, ignoring old=/new=/'changed'); docs/filters.rst is inconsistent about a field handler on a "
@@ -78,12 +92,13 @@ LEVEL_TEXT = (
     "_deduplicated/Selector.check/process_resource_event(+apply) are compared with the model on the criteria alphabet "
     "(thorough: the full product).")
 TIE = ("T (AST -> Lean for match/prematch/_matches_*/all four registry loops incl. ChangingRegistry's gate chain, "
-       "Selector.check, the blind gate and whether it purges (423b86f), the finalizer decision / carried-patch exit and what "
+       "Selector.check, the blind gate and whether it purges (423b86f: a known shape, reverted by ad4ec08 -- blind_purge_eq wants `false`), the finalizer decision / carried-patch exit and what "
        "it returns (the if-chain of 30557a0 + 02af7ce) / resumed-handlers filter of processing.process_resource_causes, "
        "whether process_resource_event forgets a fulfilled carried patch (608a57d: not any more) and apply's touch "
        "decision, re-proved equal to the model; the recognised variant of processing.py is a value (Extracted.repairs) whose "
        "flags are re-derived from the translated skeletons -- blind_purge_eq / waiting_eq / forget_eq -- and must be the "
-       "variant the theorems are named after -- repairs_known; the code before any of the repairs breaks one of them) "
+       "variant the theorems are named after -- repairs_known: Repairs.head = ad4ec08; a tree with the blind purge again, or "
+       "without 30557a0 / 02af7ce, breaks it) "
        "+ D over the criteria alphabet (quick: sampled; thorough: full "
        "product), over the documented selector notations x a resource pool, registries with plain functions and bound "
        "methods, and on real process_resource_event cycles: single events with preset residues (carried patch, resumed "
@@ -108,7 +123,8 @@ THEOREMS = [("Kopf.Props.C15", "Kopf.C15." + n) for n in (
     "gate_iff", "selected_on_deletion_iff", "subhandler_gate", "subhandler_selected_iff", "subhandlers_selected_iff",
     "subhandler_deletion_regression",
     "selector_check_iff_partial", "resource_criterion_doc_partial", "selector_gap_events_k8s_witness",
-    "stealth_exact_at", "stealth_exact", "purgeIds_iff", "stealth_removals_only_partial", "stealth_total_partial", "stealth_never_handled_partial",
+    "stealth_exact_at", "stealth_exact_blind", "stealth_exact", "blind_never_purges", "stealth_records_ignored", "purgeIds_iff",
+    "stealth_removals_only_partial", "stealth_finalizer_only_partial", "stealth_total_partial",
     "stealth_partial", "carried_fulfilled_sends_nothing", "deadline_writes_nothing", "stealth_carried_witness",
     "stealth_blocked_witness", "stealth_touch_witness", "stealth_purge_by_name_witness", "carried_fulfilled_regression",
     "stealth_leftover_regression",
@@ -147,7 +163,10 @@ RULE = ("handler declaration = labels x annotations criterion in {none, 'x', 'y'
         "that needs a label asks to be retried, the label goes and comes back, and kopf's own progress annotations travel "
         "with the object; two deployments of one registry (same handler ids) filtered to their own share by a label / an "
         "annotation, 1-3 objects, a handler that asks to be retried: the requests of each operator per object (whole-operator "
-        "simulation); "
+        "simulation); stacked registrations in a closed loop on the real process_resource_event (one function under one id for "
+        "2-4 of create/update/delete/resume[deleted=True] in random decorator order, a sibling that asks to be retried 1-9 "
+        "times or none, timelines of edit / restart / deletion, each when the operator is quiet or -- `!` -- as soon as a "
+        "handler was called for the cause before, first sight by watching or by listing): calls per cause; "
         "sub-registries: the complete grid parent kind (on.create/update/delete/resume[deleted=True]/field) x way of declaring "
         "(@kopf.subhandler, kopf.register, kopf.execute(fns=list), kopf.execute(fns=mapping)) x 22 cause shapes (every reason, "
         "DELETE/FREE/GONE on marked bodies, initial or not, labelled or not) x sub-handlers {no filter, labels=, when=false, "
@@ -171,7 +190,8 @@ TRUSTED = ["pyextract atom vocabularies for registries.match/prematch/_matches_*
            "model observed on the real run (outputs of match_daemons/stop_daemons, of the handlers, of earlier cycles; the "
            "records on the object are read with kopf's own ProgressStorage.fetch, which also decodes the patch): daemon life "
            "cycles are C09's, the patch content of process_changing_cause (incl. its purges: NOOP/FREE, /repo 40d09eb) is "
-           "C02's/C03's; State.purge / ProgressStorage.purge are not translated: `purgeIds` is tied to them by D only"]
+           "C02's/C03's; State.purge / ProgressStorage.purge are not translated: `purgeIds` (the purge of the 423b86f variants; the "
+           "code as it is has none) is tied to them by D only, on trees that have the purge"]
 ASSUMPTIONS = ["values are JSON (strings, integers, booleans, null, lists, objects; no floats). Python's bool/int coercion under == "
                "(True == 1, False == 0) is modelled explicitly on the Lean side (J.pyEq) and compared with the real code by the "
                "tie, but it is kept out of the judged set: the oracle leaves a case undefined when its documented verdict "
@@ -201,7 +221,10 @@ ASSUMPTIONS = ["values are JSON (strings, integers, booleans, null, lists, objec
                "not observed (patch_and_check is replaced, the next event is given, not derived, except the own finalizer and "
                "kopf's own progress annotations in sequences); 'left untouched' is judged on what is SENT: the requests of the "
                "cycle applied to a copy of the object; whether a leftover record is EVER removed from an object that stays "
-               "unmatched and gets no event is nobody's clause here (C03: convergence); the two-operator runs (C15-F9) use "
+               "unmatched and gets no event is nobody's clause here (C03: convergence, finding C03-F2 -- open again since ad4ec08); "
+               "the single-cycle oracle keeps the lenient reading (taking one's OWN marks off an unmatched object conforms: the "
+               "own finalizer -- and, would a future repair purge only what this process itself stored, such records), the "
+               "literal reading (no request at all) is the two-operator oracle's; the two-operator runs (C15-F9) use "
                "the whole-operator simulation (harness/sim) in child processes: 2 deployments of one registry shape, 1-3 "
                "objects, 2-8 virtual seconds",
                "Selector.__post_init__ (positional notation -> fields) is not modelled: the oracle reads the notation, the model "
@@ -740,8 +763,9 @@ def extract(ctx: Ctx) -> None:
         raise ExtractError("process_resource_causes: the prematch gate neither just drops the changing cause nor purges the "
                            "owned handlers' progress records before dropping it: " + " ; ".join(blind_body)[:300])
     emit("blindCore", "BlindAtoms", pyextract.BoolTranslator(BLIND_VOCAB).tr(blind.test))
-    # /repo 423b86f: the blind branch purges the progress records of get_resource_handlers(resource) (a shape of
-    # its own, not a default: the code before the repair gives `false`, and the tie theorem blind_purge_eq fails)
+    # /repo 423b86f made the blind branch purge the progress records of get_resource_handlers(resource); /repo ad4ec08
+    # reverted that (finding C15-F9). Both bodies are known shapes (never a default): the code as it is gives `false`;
+    # a tree with the purge gives `true`, and the tie theorems blind_purge_eq / repairs_known fail
     out.append(f"def blindPurges : Bool := {'true' if blind_body == BLIND_BODY_PURGE else 'false'}\n")
     grh = pyextract.find_def(rtree, "ChangingRegistry.get_resource_handlers")
     if [pyextract.norm(s) for s in pyextract.body_without_docstring(grh)] != GET_RESOURCE_HANDLERS_BODY:
@@ -2942,6 +2966,10 @@ async def _one_cycle(env: Env, rec: Rec, case: dict, k: int, step: dict, own_fin
             # operator's handlers for this resource (and of the sub-handlers those records name) that were ON the
             # object. Nothing added, nothing changed, nothing of anybody else removed: taking one's own leftovers
             # off is what makes "no annotations, no finalizer" true; putting anything on is what it forbids.
+            # (Since /repo ad4ec08 the code takes only its finalizer off: records are "its own" by NAME only, and
+            # another deployment's records have the same names -- the two-operator oracle below reads the clause
+            # literally for that set-up. This single-operator reading stays as it is: a repair that purges only what
+            # this very process stored would conform to it.)
             owned = {h["id"] for h in hs if h["_cls"] == "changing" and (h["_sel"] is None or h["sel"])}
             own_recs = {rid for rid in present if rid in owned} | \
                 {x for rid in present if rid in owned for x in (present[rid].get("subrefs") or [])}
@@ -3046,7 +3074,212 @@ async def _one_cycle(env: Env, rec: Rec, case: dict, k: int, step: dict, own_fin
 
 
 # =============================================================================================
-# (S) two operators, one cluster: the stealth clause seen from the OTHER operator (finding C15-F9)
+# stacked registrations in a closed loop: ONE function under ONE id registered for several reasons
+# (@kopf.on.update + @kopf.on.delete, @kopf.on.create + @kopf.on.resume, ...): "invoked once" per cause, and invoked
+# at all for every cause its criteria hold for -- also when that cause supersedes another one while a sibling is
+# still retrying (/repo f7d6401: the namesake's finished record is not inherited; C03-N3 seen from this property)
+# =============================================================================================
+FINDING_STACKED = {"site": "processing.process_changing_cause", "shape": "stacked registration (one function, one id, several reasons)"}
+# C15-F10, the residual that /repo f7d6401 names itself ("not covered by this patch"): the function is ALSO registered
+# for resuming, BEFORE the registration for the reason at hand: `_deduplicated` keeps the resuming one (no reason of
+# its own), whose record -- the namesake's finished one -- is still re-purposed
+FINDING_STACKED_RESUME = {"site": "processing.process_changing_cause",
+                          "shape": "stacked registration, the resuming one first: it is the one _deduplicated keeps, its namesake's finished record is re-purposed",
+                          "what": "the handler registered for the cause at hand is never invoked for it"}
+STACKS = (("update", "delete"), ("create", "delete"), ("create", "update"), ("create", "resume"), ("update", "resume"),
+          ("create", "update", "delete"), ("resume", "delete"), ("create", "update", "delete", "resume"))
+
+
+def stacked_cases(rng: random.Random | None, n: int) -> list[dict]:
+    """`stack`: the reasons the function `h` (id `h`) is registered for, in that order; `sibling`: another function
+    (id `sib`) of one kind that asks to be retried `temp` times; `timeline`: what happens to the object -- `edit`
+    (spec changes), `mark` (deletion requested), `restart` (the operator forgets its memory and lists the object) --
+    when the operator has gone quiet, or with `!` as soon as a handler has been called for the previous step (the
+    new cause supersedes the one still being handled); `listing`: the object is first seen by listing"""
+    out = [{"stack": ["update", "delete"], "sibling": {"kind": "update", "temp": 9}, "timeline": ["edit", "mark!"], "listing": False},
+           {"stack": ["create", "delete"], "sibling": {"kind": "create", "temp": 9}, "timeline": ["mark!"], "listing": False},
+           {"stack": ["create", "resume"], "sibling": None, "timeline": ["edit", "restart", "mark"], "listing": True},
+           {"stack": ["create", "update", "delete", "resume"], "sibling": {"kind": "update", "temp": 2},
+            "timeline": ["edit", "restart", "edit", "mark"], "listing": False},
+           {"stack": ["update", "resume"], "sibling": {"kind": "delete", "temp": 2}, "timeline": ["edit", "mark"], "listing": True}]
+    while rng is not None and len(out) < n:
+        stack = list(rng.choice(STACKS))
+        rng.shuffle(stack)
+        if "resume" in stack and rng.random() < 0.4:
+            stack[stack.index("resume")] = "resume+"        # @kopf.on.resume(deleted=True)
+        sib = None if rng.random() < 0.3 else {"kind": rng.choice(["create", "update", "update", "delete"]), "temp": rng.choice([1, 2, 3])}
+        tl = [rng.choice(["edit", "edit", "restart", "restart!"] if sib else ["edit", "edit", "restart"]) for _ in range(rng.randint(0, 3))]
+        last = rng.choice(["mark", "mark!", "mark!", None])
+        if last == "mark!" and sib is not None:
+            sib["temp"] = rng.choice([1, 3, 9])       # (only a superseded cause may be left unfinished)
+        out.append({"stack": stack, "sibling": sib, "timeline": tl + ([last] if last else []), "listing": rng.random() < 0.3})
+    return out[:n]
+
+
+async def run_stacked_case(env: Env, rec: Rec, case: dict) -> None:
+    import asyncio
+    import copy
+    P, A = env.processing, env.application
+    settings = env.configuration.OperatorSettings()
+    settings.posting.enabled = False
+    fin = settings.persistence.finalizer
+    registry = env.registries.OperatorRegistry()
+    calls: list[dict] = []
+    now = {"cycle": 0, "episode": 0}
+
+    def make(name: str, temp: int) -> Any:
+        async def fn(**kw: Any) -> None:
+            calls.append({"fn": name, "reason": kw["reason"].value, "retry": kw["retry"], "param": kw["param"], **now})
+            if kw["retry"] < temp:
+                raise env.kopf.TemporaryError("come back later", delay=0.001)
+        fn.__name__ = fn.__qualname__ = name
+        return fn
+    h = make("h", 0)
+    for k in case["stack"]:               # stacked decorators: the same function object, the same id, one handler per reason
+        getattr(env.kopf.on, k.rstrip("+"))(PLURAL, registry=registry, id="h", param=k, **({"deleted": True} if k == "resume+" else {}))(h)
+    kinds = [k.rstrip("+") for k in case["stack"]]
+    sib = case.get("sibling")
+    if sib:
+        getattr(env.kopf.on, sib["kind"])(PLURAL, registry=registry, id="sib", param="sib")(make("sib", sib["temp"]))
+    body: dict[str, Any] = {"apiVersion": "kopf.dev/v1", "kind": "KopfExample",
+                            "metadata": {"name": "obj", "namespace": "ns", "uid": "u1", "resourceVersion": "1"}, "spec": {"x": 0}}
+    rv = [1]
+    gone = [False]
+
+    async def pac(**kw: Any) -> Any:
+        before = copy.deepcopy(body)
+        new = merge_patch(body, json.loads(json.dumps(dict(kw["patch"]))))
+        for f_ in kw["patch"].fns:
+            f_(new)
+        if not (new.get("metadata") or {}).get("finalizers"):
+            (new.get("metadata") or {}).pop("finalizers", None)
+        if new == before:
+            return (None, None) if not dict(kw["patch"]) else (str(rv[0]), None)
+        rv[0] += 1
+        new["metadata"]["resourceVersion"] = str(rv[0])
+        body.clear()
+        body.update(new)
+        return str(rv[0]), None
+    memories = env.inventory.ResourceMemories()
+    memobase = env.ephemera.Memo()
+    timeline = list(case["timeline"])
+    episodes: list[dict] = [{"kind": "create", "initial": bool(case["listing"]), "superseded": False}]
+    pending: Any = "listing" if case["listing"] else "ADDED"
+    orig = A.patch_and_check
+    A.patch_and_check = pac
+    quiet = True
+    try:
+        for cyc in range(80):
+            if pending is None:
+                if gone[0] or not timeline:
+                    break
+                act = timeline.pop(0).rstrip("!")
+                pending = _stacked_act(act, body, rv, episodes, now)
+                if act == "restart":
+                    memories = env.inventory.ResourceMemories()
+            if "deletionTimestamp" in body["metadata"] and not body["metadata"].get("finalizers"):
+                gone[0], pending = True, "DELETED"
+            etype, pending = pending, None
+            now["cycle"] = cyc
+            seen = copy.deepcopy(body)
+            n0 = len(calls)
+            import warnings
+            with warnings.catch_warnings():
+                warnings.simplefilter("ignore")
+                await P.process_resource_event(
+                    lifecycle=env.lifecycles.all_at_once, indexers=env.indexing.OperatorIndexers(), registry=registry,
+                    settings=settings, memories=memories, memobase=memobase, resource=env.resource,
+                    raw_event={"type": None if etype == "listing" else etype, "object": seen},
+                    event_queue=asyncio.Queue(), no_throttling=True, consistency_time=None)
+            if etype == "DELETED":
+                break
+            if body != seen:
+                pending = "MODIFIED"
+            # a step marked `!` happens as soon as a handler has been called for the cause being handled
+            if timeline and timeline[0].endswith("!") and len(calls) > n0 and not gone[0]:
+                episodes[-1]["superseded"] = pending is not None
+                act = timeline.pop(0).rstrip("!")
+                pending = _stacked_act(act, body, rv, episodes, now)
+                if act == "restart":
+                    memories = env.inventory.ResourceMemories()
+                    # a restart in the middle of a handling: the listing shows the open cause again, now `initial`
+                    # (what a resuming handler that shares its record with a reason-bound namesake owes then is
+                    # not judged; the following causes are)
+                    episodes[-1]["murky"] = episodes[-2]["superseded"]
+        else:
+            quiet = False
+    finally:
+        A.patch_and_check = orig
+    rec.evaluations += 1
+    rec.traces += 1
+    rec.count("stacked: reasons of the one function", "+".join(case["stack"]))
+    rec.count("stacked: sibling", "none" if not sib else f"on.{sib['kind']} retried x{min(sib['temp'], 4)}{'+' if sib['temp'] > 4 else ''}")
+    rec.count("stacked: timeline", ",".join(case["timeline"]) or "-")
+    replay = {"kind": "stacked", "case": case, "calls": calls}
+    problems: list[str] = []
+    residual: list[bool] = []       # is every problem the known residual (C15-F10)?
+    # (a) once per cycle: no function (under its one id) is called twice in one handling cycle
+    for c_ in sorted({c["cycle"] for c in calls}):
+        names = [c["fn"] for c in calls if c["cycle"] == c_]
+        if len(set(names)) != len(names):
+            problems.append(f"cycle {c_}: {names} -- one function under one id was invoked twice for one cause")
+    # (b) a call's reason is one the function is registered for
+    for c in calls:
+        if c["fn"] == "h" and c["reason"] not in kinds and not ("resume" in kinds and any(ep.get("murky") for ep in episodes[:c["episode"] + 1])):
+            problems.append(f"h was invoked for reason {c['reason']}, it is registered for {case['stack']}")
+    # (c) exactly once per cause: for every cause the function is registered for (its criteria hold: there are no
+    #     filters) it is invoked -- it succeeds at once -- exactly once; for the other causes not at all
+    for e_, ep in enumerate(episodes):
+        n_h = sum(1 for c in calls if c["fn"] == "h" and c["episode"] == e_)
+        # (a creation is never "initial" -- causes.detect_changing_cause: "creation never mixes with resuming, even if
+        #  an object is detected on startup"; a restart in a quiet moment shows a resuming cause: reason `resume`)
+        declared = ep["kind"] in kinds
+        if ep.get("murky"):
+            if n_h > 1:
+                problems.append(f"cause #{e_} (restart in the middle of a handling): h was invoked {n_h} times")
+            continue
+        want = 1 if declared and not ep.get("unseen") else 0
+        rec.count("stacked: calls of the function per cause (wanted / got)", f"{ep['kind']}{'+initial' if ep['initial'] else ''}: {want} / {n_h}")
+        if n_h != want and not (ep["superseded"] and n_h == 0 and not any(c["episode"] == e_ for c in calls)):
+            problems.append(f"cause #{e_} ({ep['kind']}{', first sight' if ep['initial'] else ''}): h -- registered for {case['stack']} -- "
+                            f"was invoked {n_h} times, wanted {want}")
+            # the shape of C15-F10: not invoked at all, for a cause whose registration comes AFTER a resuming one, in a
+            # process that has not yet handled the object to the end once (restarted in the middle of a handling)
+            resuming_first = any(k_ == "resume" for k_ in kinds[:kinds.index(ep["kind"])]) if ep["kind"] in kinds else False
+            residual.append(want == 1 and n_h == 0 and resuming_first and any(x.get("murky") for x in episodes[:e_]))
+        if sib and not ep["superseded"] and ep["kind"] == sib["kind"] and not ep.get("unseen"):
+            n_s = sum(1 for c in calls if c["fn"] == "sib" and c["episode"] == e_)
+            if n_s != sib["temp"] + 1:
+                problems.append(f"cause #{e_} ({ep['kind']}): the sibling was invoked {n_s} times, wanted {sib['temp'] + 1}")
+    if not quiet:
+        problems.append("the operator did not go quiet within 80 cycles")
+    rec.nontrivial.add(f"stacked|{'+'.join(case['stack'])}|{bool(sib) and sib['kind']}|{','.join(case['timeline'])}|{bool(problems)}")
+    if problems:
+        rec.oracle_fail("stacked registrations (one function, one id): " + "; ".join(problems[:4]), replay,
+                        FINDING_STACKED_RESUME if residual and len(residual) == len(problems) and all(residual) else FINDING_STACKED)
+
+
+def _stacked_act(act: str, body: dict, rv: list, episodes: list, now: dict) -> str:
+    """a foreign action on the object; opens the next cause; returns the type of the event it makes"""
+    marked = "deletionTimestamp" in body["metadata"]
+    kind = {"edit": "update", "mark": "delete", "restart": "resume"}[act]
+    if act == "edit":
+        body["spec"]["x"] += 1
+    elif act == "mark":
+        body["metadata"]["deletionTimestamp"] = "2020-01-01T00:00:00Z"
+    # an object that is gone at once (no finalizer) shows no deletion cause; an edit of a marked object is no update cause
+    unseen = (act == "mark" and not body["metadata"].get("finalizers")) or (marked and act != "mark")
+    if act != "restart":
+        rv[0] += 1
+        body["metadata"]["resourceVersion"] = str(rv[0])
+    episodes.append({"kind": kind, "initial": act == "restart", "superseded": False, "unseen": unseen})
+    now["episode"] = len(episodes) - 1
+    return "listing" if act == "restart" else "MODIFIED"
+
+
+# =============================================================================================
+# (S) two operators, one cluster: the stealth clause seen from the OTHER operator (finding C15-F9: introduced by
+# /repo 423b86f, fixed by its revert ad4ec08 -- these runs are its regression: reverting ad4ec08 makes them fail)
 # =============================================================================================
 FINDING_SHARDS = {"site": "processing.process_resource_causes (blind branch)", "shape": "writes to an object it never matched",
                   "what": "an operator patches away progress records that another operator (same handler ids, other filters) wrote"}
@@ -3318,6 +3551,8 @@ def run_case(env: Env, rec: Rec, data: dict, reqs: list, pending: list, drv: lea
         asyncio.run(run_cycle_case(env, rec, c, reqs, pending))
     elif kind == "shards":
         run_shards_case(env, rec, data["case"], REPO[0])
+    elif kind == "stacked":
+        asyncio.run(run_stacked_case(env, rec, data["case"]))
     else:
         raise ValueError(f"unknown case kind {kind!r}")
 
@@ -3331,19 +3566,29 @@ def _set_repo(ctx: Ctx) -> None:
     try:
         VARIANT[0] = code_variant(ctx.repo)
     except ExtractError:
-        VARIANT[0] = [False, True, True, True]      # (an unknown shape: the extraction has failed already; the rework's model)
+        VARIANT[0] = [False, False, True, True]     # (an unknown shape: the extraction has failed already; the head's model)
 
 
 def run(ctx: Ctx) -> None:
     import asyncio
+    import sys
+    import time
+    t0 = [time.time()]
+
+    def lap(what: str) -> None:
+        if os.environ.get("VERIF_C15_TIMING"):
+            print(f"[C15 timing] {what}: {time.time() - t0[0]:.1f}s", file=sys.stderr)
+        t0[0] = time.time()
     _set_repo(ctx)
     env = Env()
     rec = Rec()
     rng = ctx.rng
     drv = leanio.Driver(["C15"])
     run_corpus(env, rec)
+    lap("corpus")
     exhaustive = ctx.tier == "thorough" and float(os.environ.get("VERIF_SCALE", "1")) >= 1
     fixed_sweeps(env, rec, full=ctx.tier == "thorough", rng=rng)
+    lap("fixed sweeps")
     reqs: list = []
     pending: list = []
     q = (reqs, pending)
@@ -3371,6 +3616,7 @@ def run(ctx: Ctx) -> None:
         eval_grid(env, rec, [nth_changing_handler(k) for k in ks2], std_watching_states(), "changing handler x watching cause", queue=q)
         ctx.exhaustive = False
 
+    lap("changing product")
     # ---- random larger label maps / patterns -----------------------------------------------------
     for hs_, sts_ in random_large_cases(rng, ctx.budget(40, 400)):
         eval_grid(env, rec, hs_, sts_, "random larger maps", queue=q)
@@ -3378,13 +3624,14 @@ def run(ctx: Ctx) -> None:
     # ---- registries, dedup, cycles ---------------------------------------------------------------
     for case in kind_value_sweep():
         run_select_case(env, rec, case, reqs, pending)
-    for _ in range(ctx.budget(2600, 30000)):
+    for _ in range(ctx.budget(2300, 30000)):
         run_select_case(env, rec, random_select_case(rng), reqs, pending)
     for _ in range(ctx.budget(300, 3000)):
         keys = [[rng.randrange(3), rng.choice(["a", "b", "c"])] for _ in range(rng.randint(0, 8))]
         run_dedup_case(env, rec, keys, reqs, pending)
     run_selectors(env, rec, reqs, pending)
     flush(rec, drv, reqs, pending)
+    lap("registries/dedup/selectors")
 
     async def subregistries() -> None:
         for case in sub_sweep():
@@ -3393,6 +3640,7 @@ def run(ctx: Ctx) -> None:
             await run_subselect_case(env, rec, random_subselect_case(rng), reqs, pending)
     asyncio.run(subregistries())
     flush(rec, drv, reqs, pending)
+    lap("sub-registries")
 
     async def cycles() -> None:
         for case in subcycle_scenarios() + leftover_scenarios():
@@ -3401,16 +3649,25 @@ def run(ctx: Ctx) -> None:
             await run_cycle_case(env, rec, random_leftover_sequence(rng), reqs, pending)
         for _ in range(ctx.budget(300, 4000)):
             await run_cycle_case(env, rec, random_subcycle_case(rng), reqs, pending)
-        for _ in range(ctx.budget(2000, 20000)):
+        for _ in range(ctx.budget(1700, 20000)):
             await run_cycle_case(env, rec, random_cycle_case(rng), reqs, pending)
         # consecutive events on the same in-memory records with kopf's REAL daemon spawning/stopping
         for _ in range(ctx.budget(40, 600)):
             await run_cycle_case(env, rec, random_sequence_case(rng), reqs, pending)
     asyncio.run(cycles())
     flush(rec, drv, reqs, pending)
+    lap("cycles")
+
+    # ---- stacked registrations (one function, one id, several reasons) in a closed loop: calls per cause
+    async def stacked() -> None:
+        for case in stacked_cases(rng, ctx.budget(120, 2500)):
+            await run_stacked_case(env, rec, case)
+    asyncio.run(stacked())
+    lap("stacked")
     # ---- two operators on one cluster (whole-operator simulation, in child processes)
     for case in shard_cases(rng, ctx.budget(3, 40)):
         run_shards_case(env, rec, case, REPO[0])
+    lap("two operators")
     rec.merge_into(ctx)
     ctx.extra["changing_product_size"] = N_CHANGING_PRODUCT
     ctx.extra["changing_states"] = len(sts)
@@ -3427,7 +3684,7 @@ def search(ctx: Ctx, broken: list) -> None:
     rec = Rec()
     for b in broken:
         inp = (b.replay or {}).get("input") if isinstance(b.replay, dict) else None
-        if isinstance(inp, dict) and inp.get("kind") in ("pair", "select", "dedup", "cycle", "subselect"):
+        if isinstance(inp, dict) and inp.get("kind") in ("pair", "select", "dedup", "cycle", "subselect", "stacked", "shards"):
             try:
                 run_case(env, rec, inp, [], [], None, use_model=False)
             except Exception:
@@ -3468,7 +3725,12 @@ def search(ctx: Ctx, broken: list) -> None:
                 await run_cycle_case(env, rec, random_cycle_case(rng), reqs, pending)
             for _ in range(300):
                 await run_cycle_case(env, rec, random_sequence_case(rng), reqs, pending)
+            for case in stacked_cases(rng, 1500):
+                await run_stacked_case(env, rec, case)
         asyncio.run(cycles())
+        if not rec.oracle:
+            for case in shard_cases(rng, 12):
+                run_shards_case(env, rec, case, REPO[0])
     rec.tie.clear()
     rec.merge_into(ctx)
 
